@@ -275,3 +275,30 @@ def check_option_forwarding(quals, prop, skip=("self", "data", "prior_samples", 
                             "reason": None if ok else f"{os.path.relpath(fs.path, extract.REPO)}:{n.lineno} {short}(...) is called without the caller's option "
                                                       f"`{o}` ({o}={ast.unparse(arg) if arg is not None else '<missing: the callee default is used>'})"})
     return res
+
+
+def check_no_inplace_on_borrowed(quals, prop):
+    """Frame obligation for read-only functions: an augmented assignment `x op= ...` on a name that was bound directly to a piece of an argument
+    (x = arg[...] / x = arg.attr, no copy, no arithmetic) updates the caller's object in place when it is an array - the encoding treats arrays as
+    values (S4), so this aliasing effect is excluded syntactically instead."""
+    res = []
+    for qual in quals:
+        fs = extract.locate(qual)
+        fn = fs.node
+        params = {a.arg for a in fn.args.args + fn.args.kwonlyargs}
+        borrowed = {}
+        for n in ast.walk(fn):
+            if isinstance(n, ast.Assign) and len(n.targets) == 1 and isinstance(n.targets[0], ast.Name) and isinstance(n.value, (ast.Subscript, ast.Attribute)):
+                base = n.value
+                while isinstance(base, (ast.Subscript, ast.Attribute)):
+                    base = base.value
+                if isinstance(base, ast.Name) and (base.id in params or base.id in borrowed):
+                    borrowed[n.targets[0].id] = n.lineno
+        bad = []
+        for n in ast.walk(fn):
+            if isinstance(n, ast.AugAssign) and isinstance(n.target, ast.Name) and n.target.id in borrowed:
+                bad.append(f"{os.path.relpath(fs.path, extract.REPO)}:{n.lineno} `{ast.unparse(n)}` updates in place the object bound at line {borrowed[n.target.id]} "
+                           f"(a piece of an argument)")
+        res.append({"name": f"{prop}/effects/{qual.split('.', 1)[1]}/arguments-not-updated-in-place", "status": "refuted" if bad else "discharged",
+                    "reason": "; ".join(bad) or None})
+    return res
